@@ -195,6 +195,9 @@ impl Property for C17 {
             })
             .boxed()
     }
+    fn concurrent() -> bool {
+        true
+    }
     fn check(spec: &Spec, _env: &mut Env) -> Outcome {
         let mut o = Outcome::new();
         let mut text = spelling(&spec.doc, &spec.spell);
